@@ -116,6 +116,21 @@ fn raw_core(which: Which, case: &RawCase) -> CaseOutcome
         o.evals += 1;
     }
     let in_scope: Vec<String> = files.iter().filter(|(_, b)| is_utf8(b)).map(|(r, _)| r.clone()).collect();
+    // the in-process parser must return on every file (hang suspects end the check as inconclusive)
+    for (rel, b) in &files
+    {
+        if let Ok(t) = std::str::from_utf8(b)
+        {
+            if let Err(m) = crate::hook::find(t, cfg.is_structured(), &cfg.macro_pairs())
+            {
+                if crate::hook::is_timeout(&m)
+                {
+                    o.inconclusive = Some(format!("{}: {}", rel, m));
+                    return o;
+                }
+            }
+        }
+    }
     if exhaustion_regime_raw(&files, cfg)
     {
         o.class("excluded-id-range-exhaustion-regime");
@@ -435,7 +450,14 @@ fn c06_check(case: &C06Case) -> CaseOutcome
             Ok(e) => e,
             Err(m) =>
             {
-                devs.push(dev("panic", format!("{}: the parser panicked on the edited content: {}", rel, m)));
+                if crate::hook::is_timeout(&m)
+                {
+                    o.inconclusive = Some(m);
+                }
+                else
+                {
+                    devs.push(dev("panic", format!("{}: the parser panicked on the edited content: {}", rel, m)));
+                }
                 continue;
             },
         };
